@@ -358,6 +358,12 @@ impl Prop for C14 {
                 pairs.push((3, big));
                 pairs.push((big, 3));
             }
+            // both lengths large at once: a 3- or 4-byte key length next to a 5-byte value length and vice versa
+            pairs.push((1 << 21, 1 << 28));
+            pairs.push(((1 << 21) + 1, (1 << 28) + 1));
+            pairs.push(((1 << 28) - 1, 1 << 28));
+            pairs.push((1 << 28, 1 << 21));
+            pairs.push((16384, 1 << 28));
             lens.push(1 << 28);
         }
         let results: std::sync::Mutex<Vec<(Fail, Value)>> = std::sync::Mutex::new(Vec::new());
